@@ -8,7 +8,7 @@ CHECKS = {
          "Every expression tree over 36 node kinds up to N internal nodes, in three parenthesisation modes, at every expression position, is compiled; the SQL expression found at the position is evaluated by an independent evaluator on every valuation of its columns over small domains (NULL included) and must equal the PQL tree's value (and fail where the PQL tree is ill-typed).",
          "shared primitive semantics (DESIGN.md appendix A); SQL read with ClickHouse operator priorities; unknown functions interpreted injectively"),
  "C02": ("model_checking", "explicit-state exploration of all operator sequences to depth d on the real compiler; emitted SQL executed on every small database and compared with a left-to-right pipeline interpreter", "DESIGN.md §4 C02",
-         "Every operator sequence up to depth d over 34 schema-aware operator variants (all eleven operators) is compiled by the real compiler; the SQL is run by an independent list-semantics evaluator on every database of up to m rows and must equal the result of interpreting the pipeline operator by operator: columns, rows, and order wherever a sort determines it. Covers every (splitter state x next operator) transition several times over.",
+         "Every operator sequence up to depth d over 35 schema-aware operator variants (all eleven operators) is compiled by the real compiler; the SQL is run by an independent list-semantics evaluator on every database of up to m rows and must equal the result of interpreting the pipeline operator by operator: columns, rows, and order wherever a sort determines it. Covers every (splitter state x next operator) transition several times over.",
          "list semantics of the SQL evaluator (order-preserving subqueries, stable ORDER BY); shared scalar primitives"),
  "C03": ("model_checking", "explicit-state exploration of join programs (prefix x kind x right pipeline x condition x suffix) on the real compiler; SQL executed on every pair of small tables against reference join semantics", "DESIGN.md §4 C03",
          "All combinations of 7 left prefixes, 4 kinds, 8 right-hand pipelines (nested joins included), 7 condition forms and 8 suffixes (second joins included) - quick: at most three non-default parts - are compiled and executed on every pair of small tables with NULL keys, duplicates and empty tables; results must equal the reference join semantics.",
